@@ -813,7 +813,14 @@ impl Check for C03 {
                 .chain([(8usize, true, false), (8, false, true), (3, true, true), (16, false, false)].into_iter().map(|(threads, compress, cached)| C03Case::ReopenThreads { threads, compress, cached }))
                 .chain([(1u32, 2u32, true), (1, 2, false), (2, 3, true), (1024, 256, false)].into_iter().map(|(ips, bs, compress)| C03Case::Huge { ips, bs, compress }))
                 .chain([false, true].into_iter().map(|huge| C03Case::Py { huge }))
-                .chain([(7000u32, true), (7000, false), (65535, false)].into_iter().map(|(n, compress)| C03Case::BigSection { n, compress })),
+                .chain([(7000u32, true), (7000, false), (65535, false)].into_iter().map(|(n, compress)| C03Case::BigSection { n, compress }))
+                .chain([(1u32, 2u32), (1024, 256)].into_iter().map(|(ips, bs)| {
+                    let mut o = Opts::base();
+                    o.ips = ips;
+                    o.bs = bs;
+                    o.zoom = Zoom::Manual(vec![4]);
+                    C03Case::Ranges(crate::wfam::expand(&crate::wfam::FileCase::WigKaryo { n: 40, opts: o }).into_wig().unwrap())
+                })),
         )
     }
     fn run(&self, case: &C03Case, out: &mut Outcome) {
@@ -901,7 +908,8 @@ impl Check for C03 {
                     o.ips = 1;
                     o.bs = 2;
                     o.zoom = Zoom::Manual(vec![4]);
-                    crate::wfam::expand(&crate::wfam::FileCase::WigNames { set: 0, lay: 1, opts: o }).into_wig().unwrap()
+                    // 12 chromosomes in karyotype order: the table's order is not the byte order of the names
+                    crate::wfam::expand(&crate::wfam::FileCase::WigKaryo { n: 12, opts: o }).into_wig().unwrap()
                 };
                 let Some(bytes) = do_write_wig(&c, out) else { return };
                 c03_py(&c, &bytes, out);
@@ -1154,8 +1162,11 @@ fn c04_ranges(c: &BedCase, bytes: &[u8], out: &mut Outcome) {
             }
             // ranges reaching beyond the chromosome end, a refused query, then the same readers again
             let l = ch.len;
-            for s in [0, l.saturating_sub(1), l, l + 2] {
-                for e in [l + 1, l + 5, u32::MAX] {
+            for s in [0, l.saturating_sub(1), l, l + 1, l + 2, l + 20] {
+                for e in [l + 1, l + 5, l + 30, u32::MAX] {
+                    if e <= s {
+                        continue;
+                    }
                     out.count("range_queries_beyond_the_chromosome_end", 3);
                     let g = plain.get_interval(&ch.name, s, e).map_err(|e| format!("{}", e)).and_then(collect_bed);
                     cmp_bed_answer("plain", ch, s, e, g, &tags, out);
@@ -1397,7 +1408,26 @@ impl Check for C04 {
             .into_iter()
             .map(|(ips, bs, compress)| C04Case::Huge { ips, bs, compress })
             .chain([false, true].into_iter().map(|huge| C04Case::Py { huge }))
-            .chain(std::iter::once(C04Case::CacheReset { n: 5203 }));
+            .chain(std::iter::once(C04Case::CacheReset { n: 5203 }))
+            .chain((0..4u32).flat_map(|lay| {
+                // entries that start inside the chromosome and end beyond it (accepted by the writer):
+                // a query beyond the chromosome length still overlaps them
+                [(1u32, 2u32), (1024, 256)].into_iter().map(move |(ips, bs)| {
+                    let mut o = Opts::base();
+                    o.ips = ips;
+                    o.bs = bs;
+                    o.zoom = Zoom::Manual(vec![4]);
+                    C04Case::Ranges(crate::wfam::expand(&crate::wfam::FileCase::BedBeyondEnd { lay, opts: o }).into_bed().unwrap())
+                })
+            }))
+            .chain([(1u32, 2u32), (1024, 256)].into_iter().map(|(ips, bs)| {
+                // 40 chromosomes in karyotype order (chr1 .. chr40): every range on every one
+                let mut o = Opts::base();
+                o.ips = ips;
+                o.bs = bs;
+                o.zoom = Zoom::Manual(vec![4]);
+                C04Case::Ranges(crate::wfam::expand(&crate::wfam::FileCase::BedKaryo { n: 40, opts: o }).into_bed().unwrap())
+            }));
         Box::new(singles.chain(multi).chain(hist).chain(tools).chain(extra))
     }
     fn run(&self, case: &C04Case, out: &mut Outcome) {
@@ -1480,7 +1510,7 @@ impl Check for C04 {
                     o.ips = 1;
                     o.bs = 2;
                     o.zoom = Zoom::Manual(vec![4]);
-                    crate::wfam::expand(&crate::wfam::FileCase::BedNames { set: 0, lay: 1, opts: o }).into_bed().unwrap()
+                    crate::wfam::expand(&crate::wfam::FileCase::BedKaryo { n: 12, opts: o }).into_bed().unwrap()
                 };
                 let Some(bytes) = do_write_bed(&c, out) else { return };
                 c04_py(&c, &bytes, out);
